@@ -259,7 +259,7 @@ PROPS = {
                       "element's output by start tag + converted fallback + end tag, to call the handler "
                       "once iff configured, to bind `error`, and to let non-Exceptions propagate.",
         "level_note": K3_NOTE,
-        "units": [K("k3::S-OnError-keep"), K("k3::S-OnError-in-translate"),
+        "units": [K("k3::S-OnError-keep"), K("k3::S-OnError-in-translate"), K("k3::S-OnError-static-body"),
                   K("k3::S-OnError-dict-attributes"), FRESH],
         "not_decided": [],
         "assumptions": K3_ASSUME,
